@@ -572,10 +572,16 @@ class Analyzer(cfg.GraphVisitor):
     inferrer = StmtInferrer(self.resolver, self.scope, self.namespace,
                             self.closure_types, types_in)
     inferrer.visit(ast_node)
+    node_scope = anno.Static.SCOPE.of(ast_node, None)
+    if node_scope is not None:
+      # Symbols the statement rebinds without the inferrer knowing their new
+      # type (e.g. augmented assignments, loop targets) become unknown.
+      for s in node_scope.modified | node_scope.deleted:
+        if s not in inferrer.new_symbols:
+          types_out.types.pop(s, None)
     types_out.types.update(inferrer.new_symbols)
 
     reaching_fndefs = anno.Static.DEFINED_FNS_IN.of(ast_node)
-    node_scope = anno.Static.SCOPE.of(ast_node, None)
     if node_scope is not None:
       # TODO(mdan): Check that it's actually safe to skip nodes without scope.
       reads = {str(qn) for qn in node_scope.read}
